@@ -115,6 +115,15 @@ def r1_direction_wrapper(ctx):
             paths.append((state["asc"], state["calls"] + 1, ci[0], False,
                           ci[1], state["stale"], node))
             return
+        if isinstance(v, ast.Subscript) and isinstance(
+                v.value, ast.Call) and call_name(v.value) == mf and \
+                norm(v.slice) == "::-1":
+            ci = call_info(v.value, state)
+            if ci is None:
+                raise Undecided("unrecognised call of the model function")
+            paths.append((state["asc"], state["calls"] + 1, ci[0], True,
+                          ci[1], state["stale"], node))
+            return
         t = norm(v)
         for rn, rrev in state["results"].items():
             if t == rn:
@@ -288,6 +297,27 @@ def r3_shipped_models(ctx):
         shapes = [c for c in calls_in(fn) if (call_name(c) or "").endswith(
             ("zeros_like", "full_like", "ones_like", "empty_like"))]
         ok = shapes and all(norm(c.args[0]) == ps[0] for c in shapes)
+        if not shapes:
+            # the array is allocated by a package function the model
+            # function delegates to (with the abscissa as its abscissa)
+            from .c02 import ModelEval
+            try:
+                me = ModelEval(mod)
+            except Undecided:
+                me = None
+            for c in calls_in(fn):
+                if me is None or not isinstance(c.func, ast.Name):
+                    continue
+                cal = me._resolve_callee(c.func.id)
+                if cal is None:
+                    continue
+                cps = func_params(cal[1])
+                sh2 = [x for x in calls_in(cal[1]) if (call_name(x) or ""
+                       ).endswith(("zeros_like", "full_like", "ones_like",
+                                   "empty_like"))]
+                if sh2 and all(norm(x.args[0]) == cps[0] for x in sh2) \
+                        and c.args and norm(c.args[0]) == ps[0]:
+                    ok = True
         ctx.check(bool(ok), fn, f"{fn.name}: result shaped like the abscissa",
                   "the result array is not shaped like the abscissa")
 
